@@ -578,6 +578,54 @@ def inline_tail_self_calls(f, methods, depth=2):
     return g
 
 
+def _expand_elements(rv, consts, k):
+    """`X[lo:hi]`, `tuple(E for i in range(lo, hi))`, `[E for i in range(lo, hi)]` with integer bounds that are constant once the
+    names in `consts` are replaced -> ast.Tuple of the k elements; None if the expression is of another form or another length."""
+    import copy
+
+    class Sub(ast.NodeTransformer):
+        def __init__(self, m):
+            self.m = m
+
+        def visit_Name(self, n):
+            if isinstance(n.ctx, ast.Load) and n.id in self.m:
+                return ast.copy_location(copy.deepcopy(self.m[n.id]), n)
+            return n
+
+    def const_int(e):
+        e = Sub(consts).visit(copy.deepcopy(e))
+        if any(not isinstance(x, (ast.Expression, ast.BinOp, ast.UnaryOp, ast.Constant, ast.operator, ast.unaryop, ast.expr_context)) for x in ast.walk(e)):
+            return None
+        try:
+            v = eval(compile(ast.fix_missing_locations(ast.Expression(body=e)), '<const>', 'eval'), {'__builtins__': {}})
+        except Exception:
+            return None
+        return v if isinstance(v, int) and not isinstance(v, bool) else None
+    if isinstance(rv, ast.Subscript) and isinstance(rv.slice, ast.Slice) and rv.slice.step is None and rv.slice.lower is not None and rv.slice.upper is not None:
+        lo, hi = const_int(rv.slice.lower), const_int(rv.slice.upper)
+        if lo is None or hi is None or lo < 0 or hi - lo != k:
+            return None
+        return ast.Tuple(elts=[ast.Subscript(value=copy.deepcopy(rv.value), slice=ast.Constant(value=i), ctx=ast.Load()) for i in range(lo, hi)], ctx=ast.Load())
+    gen = None
+    if isinstance(rv, ast.Call) and isinstance(rv.func, ast.Name) and rv.func.id in ('tuple', 'list') and len(rv.args) == 1 and not rv.keywords \
+            and isinstance(rv.args[0], (ast.GeneratorExp, ast.ListComp)):
+        gen = rv.args[0]
+    elif isinstance(rv, ast.ListComp):
+        gen = rv
+    if gen is not None and len(gen.generators) == 1 and not gen.generators[0].ifs and isinstance(gen.generators[0].target, ast.Name):
+        it = gen.generators[0].iter
+        if isinstance(it, ast.Call) and isinstance(it.func, ast.Name) and it.func.id == 'range' and 1 <= len(it.args) <= 2 and not it.keywords:
+            b = [const_int(a_) for a_ in it.args]
+            if any(x is None for x in b):
+                return None
+            lo, hi = (0, b[0]) if len(b) == 1 else b
+            if hi - lo != k:
+                return None
+            var = gen.generators[0].target.id
+            return ast.Tuple(elts=[Sub({var: ast.Constant(value=i)}).visit(copy.deepcopy(gen.elt)) for i in range(lo, hi)], ctx=ast.Load())
+    return None
+
+
 def inline_helper_calls(f, methods, depth=2):
     """`t = self.h(a, *b[1:3])` / `t1, t2 = self.h(...)` where h is another method of the same class whose body ends in its only
     `return` -> h's body in place (parameters bound to the arguments, locals renamed), then the assignment from the returned
@@ -624,7 +672,11 @@ def inline_helper_calls(f, methods, depth=2):
                     tg = st.targets[0]
                     rv = rets[0].value
                     if ok and isinstance(tg, (ast.Tuple, ast.List)) and not (isinstance(rv, ast.Tuple) and len(rv.elts) == len(tg.elts)):
-                        ok = False
+                        # a slice with constant bounds / a tuple or list built from a generator over a constant range, once the
+                        # constant arguments are put in: the elements are written out
+                        rv = _expand_elements(rv, {pn: a for pn, a in zip(params, bound) if isinstance(a, ast.Constant)}, len(tg.elts))
+                        if rv is None:
+                            ok = False
                     if ok:
                         prefix = '_%s_' % g.name
                         local = {n.id for n in ast.walk(g) if isinstance(n, ast.Name) and isinstance(n.ctx, ast.Store)} | set(params)
